@@ -309,6 +309,51 @@ func (p *Program) reservedArgCaseOK(rcs []*ssa.Call) bool {
 	return ok
 }
 
+// reservedArgFolded: every reserved test is applied to a key that went through strings.ToLower, or the predicate folds
+// case itself (ToLower / EqualFold on its parameter).
+func (p *Program) reservedArgFolded(rcs []*ssa.Call) bool {
+	for _, rc := range rcs {
+		folded := false
+		seen := map[ssa.Value]bool{}
+		var walk func(v ssa.Value, d int)
+		walk = func(v ssa.Value, d int) {
+			if d > 6 || seen[v] {
+				return
+			}
+			seen[v] = true
+			for _, o := range p.origins(v, originOpts{}) {
+				c, isCall := o.(*ssa.Call)
+				if !isCall {
+					continue
+				}
+				switch calleeName(c) {
+				case "strings.ToLower":
+					folded = true
+				case "strings.TrimSpace", "strings.TrimPrefix", "strings.TrimSuffix":
+					walk(c.Call.Args[0], d+1)
+				}
+			}
+		}
+		walk(rc.Call.Args[0], 0)
+		if !folded {
+			if callee := rc.Call.StaticCallee(); callee != nil && p.InModule(callee) {
+				p.eachInstrRegion(callee, func(_ *ssa.Function, in ssa.Instruction) {
+					if c, ok := in.(ssa.CallInstruction); ok {
+						switch calleeName(c) {
+						case "strings.ToLower", "strings.EqualFold":
+							folded = true
+						}
+					}
+				})
+			}
+		}
+		if !folded {
+			return false
+		}
+	}
+	return true
+}
+
 func ruleMDGateOut(r *Run) {
 	p := r.P
 	gates := p.findGates(isMDType, isHeaderType)
@@ -345,6 +390,13 @@ func ruleMDGateOut(r *Run) {
 		if len(rcs) > 0 {
 			r.check(p.reservedArgCaseOK(rcs), key+"/reserved-filter-case", g.update.Pos(), "the reserved test is applied to the key as the table spells it (raw metadata key / lower-cased)",
 				"the reserved-key test is applied to a canonicalised or upper-cased key (textproto.CanonicalMIMEHeaderKey, http.CanonicalHeaderKey, strings.ToUpper/Title) while the reserved table is lower-case: no key ever matches, handler metadata named content-type, content-encoding, grpc-status … overrides the transport's own headers")
+		}
+		// (a'') … and folded to it: the keys of handler metadata are whatever the handler wrote (metadata.MD{"Content-Type": …}
+		// is a legal Go value), and the header map canonicalises them afterwards, so an unfolded test lets a mixed-case
+		// reserved key through
+		if len(rcs) > 0 {
+			r.check(p.reservedArgFolded(rcs), key+"/reserved-filter-folds-case", g.update.Pos(), "the key is lower-cased before the reserved test (or the test folds case itself)",
+				"the reserved-key test is applied to the handler's metadata key as given: the table is lower-case and the header map canonicalises the key afterwards, so metadata.MD{\"Content-Type\": …} or {\"Grpc-Status\": …} passes the filter and overrides the transport's own header")
 		}
 		// (b) -bin values are encoded
 		r.check(p.binTransform(g, "larking.io/larking.encodeBinHeader"), key+"/bin-encode", g.update.Pos(), "values of '-bin' keys pass through encodeBinHeader",
